@@ -111,6 +111,11 @@ func (c *conn) serveRequests() error {
 			if errors.Is(err, io.EOF) || errors.Is(err, io.ErrUnexpectedEOF) || strings.Contains(err.Error(), "unexpected EOF") {
 				return nil // connection is closed
 			}
+			select {
+			case <-c.shutdownCtx.Done():
+				return nil // the read was interrupted by the server stopping
+			default:
+			}
 			return fmt.Errorf("%s: error reading request: %w", op, err)
 		}
 
